@@ -190,6 +190,9 @@ static void idle_check (void) {
 	int t;
 	rt_cover (CV_IDLE);
 	if ((word & (SC_MU_ANY_LOCK | 2u)) != 0) return;
+	for (t = 0; t < S.nthreads; t++)
+		if (rt_thread_blocked (t) && !rt_thread_timed (t) && !strcmp (rt_thread_at (t), "nsync_mu_lock_slow_") && rt_thread_lock_addr (t) == (const volatile void *) &S.mu.word)
+			rt_violation ("asleep-on-free-mutex", rt_thread_op (t), "idle instant (only deadlines pending): the mutex word %#x shows no holder, yet thread %d is asleep in %s waiting for it", word, t, rt_thread_op (t));
 	for (t = 1; t <= S.nw; t++) {
 		int k = sc_get (&S.waiting_on[t]);
 		if (k >= 0 && sc_get (&S.varsh[k]) && rt_thread_blocked (t))
